@@ -910,17 +910,16 @@ class Interp:
         return self.eval(node.body, env) if self.truth(self.eval(node.test, env)) else self.eval(node.orelse, env)
 
     def e_BoolOp(self, node, env):
-        if isinstance(node.op, ast.And):
-            v = True
-            for e in node.values:
-                v = self.eval(e, env)
-                if not self.truth(v):
-                    return v
-            return v
-        v = False
-        for e in node.values:
+        last = len(node.values) - 1
+        v: Any = None
+        for i, e in enumerate(node.values):
             v = self.eval(e, env)
-            if self.truth(v):
+            if i == last:
+                return v  # the value of the last operand is the result whatever its truth
+            t = self.truth(v)
+            if isinstance(node.op, ast.And) and not t:
+                return v
+            if isinstance(node.op, ast.Or) and t:
                 return v
         return v
 
@@ -998,6 +997,7 @@ class Interp:
         return App('op:' + name, a, b)
 
     BYTES_OPS = {'mcall:to_bytes', 'mcall:encode', 'mcall:digest', 'ext', 'raw', 'mcall:hex', 'mcall:decode', 'fmt'}
+    NEVER_NONE_OPS = {'str', 'int', 'len', 'cat', 'min', 'max', 'abs', 'bytes', 'sorted', 'fmt', 'slice'}
     BOOL_OPS = {'==', '<', '<=', '>', '>=', 'in', 'is', 'not', 'isinstance', 'eq'}
     CMP = {'Eq': '==', 'NotEq': '!=', 'Lt': '<', 'LtE': '<=', 'Gt': '>', 'GtE': '>=', 'In': 'in', 'NotIn': 'not in',
            'Is': 'is', 'IsNot': 'is not'}
@@ -1022,6 +1022,8 @@ class Interp:
             if a is None or b is None or isinstance(a, bool) or isinstance(b, bool):
                 other = b if (a is None or isinstance(a, bool)) and not (b is None or isinstance(b, bool)) else a
                 const = a if other is b else b
+                if isinstance(other, App) and (other.op.startswith('op:') or other.op in self.NEVER_NONE_OPS):
+                    return op != 'is'  # an arithmetic / string result is never None, True or False itself
                 if isinstance(other, (Sym, App)):
                     t = App('is', other, const)
                     return t if op == 'is' else App('not', t)
@@ -1726,6 +1728,14 @@ class Interp:
         if is_prim(args[0]):
             return abs(args[0])
         return App('abs', args[0])
+
+    def b_callable(self, args, kwargs, node):
+        v = args[0]
+        if isinstance(v, (FuncRef, ClassRef, Builtin, BoundMethod)):
+            return True
+        if isinstance(v, (Sym, App)):
+            return App('callable', v)
+        return False
 
     def b_super(self, args, kwargs, node):
         raise Unsupported('super()')
